@@ -56,8 +56,8 @@ void runCase(long long i, Prng& r, const Args& a) {
   // matrix has condition 1e10 and more, which a float LU cannot resolve to 1e-2 -- a statement about float, not about the code.  Such
   // samples are counted and not judged (double is always judged)
   const double condR = (double)(JrRef.norm() * JrRefInv.norm()), condL = (double)(JlRef.norm() * JlRefInv.norm());
-  // beyond u*cond = 0.1 (cond > 2e6 in float) a float inverse has no correct digit left: counted, not judged
-  const bool resolvable = dbl || std::max(condR, condL) * Sc<MonS>::u() < 0.1;
+  // beyond u*cond = 0.1 (cond > 2e6 in float) a float inverse computed numerically has no correct digit left: counted, not judged
+  const bool resolvable = dbl || std::max(condR, condL) * Sc<MonS>::u() < 0.1;   // double is always judged (observed agreement 1e-14 even at cond 1e19: the matrices are block triangular)
   LOG.count(std::string(resolvable ? "inverse-judged/" : "inverse-not-judged(float,u*cond>=0.1)/") + GN());
   if (getenv("C06_DEBUG")) fprintf(stderr, "cond %g %g errs %g %g\n", condR, condL, (double)relF(Jri, JrRefInv), (double)relF(Jli, JlRefInv));
   if (resolvable) {
@@ -92,7 +92,7 @@ void runCase(long long i, Prng& r, const Args& a) {
       E.block(g.dofOff[b], g.dofOff[b], g.el[b].dof, g.el[b].dof) = ref::expm(ref::ad(g.el[b], tb), g.el[b].theta(tb));
     }
     rec("Adj(exp)=exp(ad)", relF(A, E), tolj);
-    rec("Adj(exp)=ljac*rjacinv", relF(A, Jl * Jri), tolj);
+    if (resolvable) rec("Adj(exp)=ljac*rjacinv", relF(A, Jl * Jri), tolj);   // (float only: see above)
   }
   // Adj(X*Y) = Adj(X) Adj(Y), with Y an independent element
   {
